@@ -223,6 +223,10 @@ def quantifier(e: ast.AST):
         r = comp(e.args[0], False)
         if r:
             return (True,) + r
+    if isinstance(e, ast.Call) and isinstance(e.func, ast.Name) and e.func.id == "all" and len(e.args) == 1 and not e.keywords:
+        r = comp(e.args[0], False)   # all(P(x) for x in U)  ==  not any(not P(x) for x in U)
+        if r:
+            return (False, r[0], r[1], ast.UnaryOp(ast.Not(), r[2]))
     if isinstance(e, ast.Compare) and len(e.ops) == 1 and isinstance(e.comparators[0], ast.Constant) \
             and isinstance(e.left, ast.Call) and isinstance(e.left.func, ast.Name) and e.left.func.id == "len" and len(e.left.args) == 1:
         r = comp(e.left.args[0], True)
@@ -233,6 +237,28 @@ def quantifier(e: ast.AST):
             if (isinstance(op, (ast.NotEq, ast.Gt)) and v == 0) or (isinstance(op, ast.GtE) and v == 1):
                 return (True,) + r
     return None
+
+
+def _cond_text(f) -> str:
+    """Canonical text of a condition formula; the spellings of emptiness (`not x`, `len(x) == 0`, `not len(x) > 0`)
+    coincide."""
+    k = f[0]
+    if k == "atom":
+        a = f[1]
+        if a[0] == "b":
+            return f"nonempty({a[1][2:]})" if a[1].startswith("T:") else a[1]
+        if a[0] == "lt" and a[1] == "0" and a[2].startswith("len("):
+            return f"nonempty({a[2][4:-1]})"
+        if a[0] == "eq" and a[1] == "0" and a[2].startswith("len("):
+            return f"not nonempty({a[2][4:-1]})"
+        return show(f)
+    if k == "not":
+        t = _cond_text(f[1])
+        return t[4:] if t.startswith("not ") else "not " + t
+    if k == "const":
+        return str(f[1])
+    sep = " and " if k == "and" else " or "
+    return "(" + sep.join(sorted(_cond_text(g) for g in f[1])) + ")"
 
 
 def _rename(e: ast.AST, old, new: str) -> ast.AST:
@@ -288,7 +314,8 @@ class Translator:
         q = quantifier(e)
         if q is not None:
             pos, it, var, cond = q
-            at = B(f"any:{self.key(it)}|{self.key(_rename(cond, var, '_q'))}")
+            inner = Translator(self.key, None, self.numeric, None, self.canon)  # synthetic copy: no position-bound hooks
+            at = B(f"any:{self.key(it)}|{_cond_text(inner.f(_rename(cond, var, '_q')))}")
             return at if pos else Not(at)
         if isinstance(e, ast.BoolOp):
             parts = [self.f(v) for v in e.values]
